@@ -38,6 +38,18 @@ var bufSizes = []int{16, 64, 200, 1024, 4096, 4096, 8192, 65536}
 
 func maybeDepField(t *rapid.T, b *docBuilder, e *Exp, field, goName string, prob int) {
 	if d := depOrNil(t, goName, prob); d != nil {
+		if b.substVersions {
+			// debian/control is a template: the version of a relation is as often a substitution
+			// variable - alone, or with literal text around it - as a number
+			for ri := range d.Rels {
+				for ai := range d.Rels[ri].Alts {
+					if a := &d.Rels[ri].Alts[ai]; a.HasVer && rapid.IntRange(0, 2).Draw(t, goName+"substVer") == 0 {
+						a.Ver = rapid.SampledFrom([]string{"${binary:Version}", "${source:Version}", "${source:Upstream-Version}", "${source:Version}~", "${source:Upstream-Version}.1~", "${binary:Version}+b1", "1:${source:Upstream-Version}-1", "${source:Upstream-Version}+1~"}).Draw(t, goName+"substVerText")
+						b.feats["substvar-in-version"] = true
+					}
+				}
+			}
+		}
 		b.dep(t, field, *d)
 		e.Deps[goName] = *d
 	}
@@ -241,6 +253,7 @@ func genControlDoc(t *rapid.T) TypedDocCase {
 		// aligned with several blanks or tabs, or folded under the first, as joined by one blank
 		b.blankStyle = rapid.IntRange(1, 5).Draw(t, "blankStyle")
 	}
+	b.substVersions = rapid.Bool().Draw(t, "substVersions")
 	acc := map[string][]string{}
 	se := newExp()
 	src := genPkgName(t, "src")
@@ -307,7 +320,22 @@ func genControlDoc(t *rapid.T) TypedDocCase {
 	if nb >= 2 {
 		b.feats["multi-binary"] = true
 	}
-	return TypedDocCase{Kind: "control", Text: b.sb.String(), Path: "debian/control", BufSize: rapid.SampledFrom(bufSizes).Draw(t, "buf"), Exps: exps, Acc: acc, Feats: b.featList()}
+	text := b.sb.String()
+	if rapid.IntRange(0, 3).Draw(t, "commented") == 0 {
+		// ... and it may carry comment lines anywhere: in front of a field, between the lines of a
+		// folded one, at the very top and bottom
+		lines := strings.SplitAfter(text, "\n")
+		var out strings.Builder
+		for _, l := range lines {
+			if l != "" && rapid.IntRange(0, 5).Draw(t, "commentHere") == 0 {
+				out.WriteString(rapid.SampledFrom([]string{"# comment\n", "#\n", "#Depends: commented-out (>= 1)\n", "# a: b\n#  continued\n"}).Draw(t, "comment"))
+				b.feats["comment-lines"] = true
+			}
+			out.WriteString(l)
+		}
+		text = out.String()
+	}
+	return TypedDocCase{Kind: "control", Text: text, Path: "debian/control", BufSize: rapid.SampledFrom(bufSizes).Draw(t, "buf"), Exps: exps, Acc: acc, Feats: b.featList()}
 }
 
 // ------------------------------------------------------------------ Packages index
@@ -881,7 +909,7 @@ func genPackageListLine(t *rapid.T, label, bin string) string {
 
 var specC10 = Register(&Spec[TypedDocCase]{
 	Prop: "C10", Name: "typed",
-	Rule:  "six document kinds rendered from a field model in the layout the Debian tools emit: .dsc (Binary 'a, b, c' single-line or folded, Architecture list, Uploaders, Build-Depends* single-line / folded / wrap-and-sort, Package-List lines of 4 to 8 columns (arch=, profile=, protected=, essential=), Checksums-Sha1/-Sha256, Files), .changes (space-separated Binary, Closes, multi-line Description and Changes with ' .', 5-column Files), debian/control (source paragraph + 1..4 binary paragraphs, the Architecture list in a quarter of the documents laid out by hand - two blanks, a tab, folded under the first element, folded behind a tab -, folded Uploaders and dependency fields with substvars, Essential, multi-line Description), Packages and Sources indexes of 1..4 paragraphs or (one in 25) the same paragraphs repeated to 1025 .. 4100; Packages (Source 'name (ver)', Installed-Size, folded Tag, Build-Ids, dependency accessors over single-line, folded and one-relation-per-line fields), Sources (folded Binary, Standards-Version, Vcs-*, Directory, accessors) and DEBIAN/control (decoded from text and, packed into control.tar / control.tar.gz of a minimal .deb, through deb.Load; one in twelve with a description that takes the control file beyond 32 KiB); unknown X- fields sprinkled in; the bufio.Reader handed to the Parse* functions has a generated size 16..65536 and reads from a plain, one-byte, half or data-with-EOF reader. Oracle: every struct field whose Debian field is in the model equals the model (scalars verbatim / reader convention, versions by parts, architectures by triple, dependencies against the model AST, comma/space lists as trimmed elements, file lists as (algorithm, hash, size, name[, section, priority])), accessors agree with the model. Non-trivial: a folded field, >= 2 binaries, >= 2 files or >= 2 paragraphs; distinct by (kind, text, buffer size).",
+	Rule:  "six document kinds rendered from a field model in the layout the Debian tools emit: .dsc (Binary 'a, b, c' single-line or folded, Architecture list, Uploaders, Build-Depends* single-line / folded / wrap-and-sort, Package-List lines of 4 to 8 columns (arch=, profile=, protected=, essential=), Checksums-Sha1/-Sha256, Files), .changes (space-separated Binary, Closes, multi-line Description and Changes with ' .', 5-column Files), debian/control (source paragraph + 1..4 binary paragraphs, the Architecture list in a quarter of the documents laid out by hand - two blanks, a tab, folded under the first element, folded behind a tab -, folded Uploaders and dependency fields with substvars as alternatives and - in half of the documents - inside version clauses ((= ${binary:Version}), (<< ${source:Version}~), (>= ${source:Upstream-Version}.1~)), comment lines in a quarter of the documents (in front of fields, between the lines of folded ones, at the top and bottom), Essential, multi-line Description), Packages and Sources indexes of 1..4 paragraphs or (one in 25) the same paragraphs repeated to 1025 .. 4100; Packages (Source 'name (ver)', Installed-Size, folded Tag, Build-Ids, dependency accessors over single-line, folded and one-relation-per-line fields), Sources (folded Binary, Standards-Version, Vcs-*, Directory, accessors) and DEBIAN/control (decoded from text and, packed into control.tar / control.tar.gz of a minimal .deb, through deb.Load; one in twelve with a description that takes the control file beyond 32 KiB); unknown X- fields sprinkled in; the bufio.Reader handed to the Parse* functions has a generated size 16..65536 and reads from a plain, one-byte, half or data-with-EOF reader. Oracle: every struct field whose Debian field is in the model equals the model (scalars verbatim / reader convention, versions by parts, architectures by triple, dependencies against the model AST, comma/space lists as trimmed elements, file lists as (algorithm, hash, size, name[, section, priority])), accessors agree with the model. Non-trivial: a folded field, >= 2 binaries, >= 2 files or >= 2 paragraphs; distinct by (kind, text, buffer size).",
 	Check: checkTypedDoc,
 })
 
